@@ -42,9 +42,12 @@ def cps(s):
 
 
 def case(ctype, data, cl='len', chunked=False, sched=None, mem=102400, maxb=None, access='forms', cl_raw=None,
-         te=None):
+         te=None, pre='none', no_ctype=False, app='own', cfg_via='ctor'):
     """cl: 'len' | int (-1 = header absent) ; cl_raw: the CONTENT_LENGTH header text verbatim (overrides cl) ;
-    te: the Transfer-Encoding header text (default: 'chunked' when chunked)"""
+    te: the Transfer-Encoding header text (default: 'chunked' when chunked);
+    pre: a property the handler reads BEFORE the observed one ('none' | forms | files | POST | json | body: a partial
+    body.read(3)); no_ctype: the CONTENT_TYPE key is absent from environ (ctype must be '');
+    app: 'own' | 'shared' (one module-level application for many cases); cfg_via: 'ctor' | 'setup'"""
     data = list(data)
     if cl_raw is None:
         n = len(data) if cl == 'len' else cl
@@ -52,7 +55,8 @@ def case(ctype, data, cl='len', chunked=False, sched=None, mem=102400, maxb=None
     if te is None:
         te = 'chunked' if chunked else ''
     return dict(ctype=cps(ctype), data=data, cl_raw=None if cl_raw is None else cps(cl_raw), te=cps(te),
-                chunked='chunked' in te.lower(), sched=sched or [], mem=mem, maxb=maxb, access=access)
+                chunked='chunked' in te.lower(), sched=sched or [], mem=mem, maxb=maxb, access=access, pre=pre,
+                no_ctype=bool(no_ctype and not ctype), app=app, cfg_via=cfg_via)
 
 
 def cl_text(case):
@@ -149,6 +153,24 @@ def corpus():
     out.append(case('text/plain', b'x', cl_raw='abc', access='body'))
     out.append(case(CT_MP, wire, cl_raw='abc', te='chunked', mem=64))            # parsed even when chunked
     out.append(case('text/plain', b'{}', cl_raw='abc', access='json'))             # body never read: 200
+    # ---- audit round: two properties read in a row, missing CONTENT_TYPE key, one application for many requests,
+    # configuration through setup(), short reads under chunked framing
+    out.append(case(CT_MP, ok1 + okf + END, pre='body', access='files'))
+    out.append(case(CT_MP, ok1 + okf + END, pre='forms', access='body', mem=9))
+    out.append(case('application/json', b'{"a": 1}', pre='json', access='forms'))
+    out.append(case('application/json', b'{', pre='json', access='body'))                 # the first access ends the request
+    out.append(case('application/json', b'[1]', pre='body', access='POST'))
+    out.append(case(CT_MP, b'garbage', pre='body', access='forms'))
+    out.append(case('', b'a=1&b=2', no_ctype=True))
+    out.append(case('', b'a=1', no_ctype=True, access='json'))
+    out.append(case(CT_MP, ok1 + END, app='shared', cfg_via='setup', mem=64))
+    out.append(case(CT_MP, part(CD + b'name="a"', b'v' * 50) + END, app='shared', cfg_via='setup', mem=60))   # 413 ...
+    out.append(case(CT_MP, ok1 + END, app='shared', cfg_via='setup', mem=64))                                  # ... then 200 again
+    out.append(case('application/json', b'{', app='shared', cfg_via='setup', access='json'))
+    out.append(case(CT_MP, ok1 + END, cfg_via='setup', maxb=10))
+    out.append(case(CT_MP, F.chunked(ok1 + okf + END, [5, 9]), cl=-1, chunked=True, mem=16, access='files',
+                    sched=[0, 1, 0, 0, 2, 0, 5, 0, 0, 3] * 30))
+    out.append(case(CT_MP, F.chunked(ok1 + okf + END, [5, 9])[:-9], cl=-1, chunked=True, mem=16, sched=[0, 2] * 90))
     # ---- per-part headers beyond Content-Disposition: the part's own Content-Type (with a charset Python knows, does
     # not know, or that is not a text codec), Content-Transfer-Encoding, duplicates, on TEXT parts and on uploads
     for cs in (b'utf-8', b'latin-1', b'klingon', b'x-user-defined', b'hex', b'base64', b'', b'"utf-8"', b'"klingon"',
@@ -282,6 +304,14 @@ def nasty_header(rng):
     return CD + param + run + tail
 
 
+def extra(rng, ctype):
+    """the audit dimensions: a property read before the observed one, absent CONTENT_TYPE, shared application,
+    configuration path"""
+    return dict(pre=rng.choice(['none', 'none', 'none', 'body', 'json', 'forms', 'files', 'POST']),
+                no_ctype=(ctype == '' and rng.random() < 0.5),
+                app=rng.choice(['own', 'own', 'shared']), cfg_via=rng.choice(['ctor', 'setup']))
+
+
 def gen(rng, n):
     for _ in range(n):
         r = rng.random()
@@ -328,14 +358,15 @@ def gen(rng, n):
             if rng.random() < 0.3 and not is_json:
                 wire = mutate(rng, wire)
             cl = -1 if rng.random() < 0.8 else rng.choice([0, ln, len(wire), 3])
-            yield case(ctype, wire, cl=cl, mem=mem, maxb=maxb, access=access,
+            csched = [] if rng.random() < 0.5 else [rng.choice([0, 0, 1, 2, 3, 7, 20]) for _ in range(rng.randrange(1, 60))]
+            yield case(ctype, wire, cl=cl, mem=mem, maxb=maxb, access=access, sched=csched, **extra(rng, ctype),
                        te=rng.choice(['chunked', 'chunked', 'Chunked', 'gzip, chunked', 'CHUNKED ']))
             continue
         q = rng.random()
         cl = ln if q < 0.7 else max(0, ln - rng.randrange(1, 6)) if q < 0.8 else ln + rng.randrange(1, 9) if q < 0.9 \
             else -1 if q < 0.95 else 0
         sched = [] if rng.random() < 0.6 else [rng.choice([0, 0, 1, 2, 3, 7, 20]) for _ in range(rng.randrange(1, 30))]
-        yield case(ctype, body, cl=cl, sched=sched, mem=mem, maxb=maxb, access=access)
+        yield case(ctype, body, cl=cl, sched=sched, mem=mem, maxb=maxb, access=access, **extra(rng, ctype))
 
 
 def thorough():
@@ -385,34 +416,64 @@ def run_impl(case):
     return F.covered(ID, COV_TARGETS, _run_impl, case)
 
 
+_CUR = {}
+_SHARED = []
+
+
+def _read(rq, access, seen, key):
+    if access == 'body':
+        seen[key] = ['body', list(rq.body.read())]
+    elif access == 'json':
+        seen[key] = ['json', jkind(rq.json)]
+    else:
+        getattr(rq, access)
+        ct = rq.content_type
+        if ct.startswith('multipart/'):
+            seen[key] = ['mp', F.snap(rq.POST, 0), F.snap(rq.forms, 0), F.snap(rq.files, 0)]
+            seen['buffered'] = list(rq.body.read())
+        elif ct.startswith('application/json'):
+            seen[key] = ['jsonforms', jkind(rq.json)]
+        else:
+            seen[key] = ['url']
+
+
+def _handler():
+    app, case, seen = _CUR['app'], _CUR['case'], _CUR['seen']
+    rq = app.request
+    pre = case.get('pre', 'none')
+    if pre == 'body':
+        rq.body.read(3)                   # a partial read: the next property must rewind the buffered body itself
+    elif pre != 'none':
+        _read(rq, pre, {}, 'x')
+    _read(rq, case['access'], seen, 'value')
+    return 'ok'
+
+
 def _run_impl(case):
     from ombott import Ombott
-    app = Ombott(dict(max_memfile_size=case['mem'], max_body_size=case['maxb']))
-    seen = {}
-    access = case['access']
-
-    @app.post('/')
-    def handler():
-        rq = app.request
-        if access == 'body':
-            seen['value'] = ['body', list(rq.body.read())]
-        elif access == 'json':
-            seen['value'] = ['json', jkind(rq.json)]
+    cfg = dict(max_memfile_size=case['mem'], max_body_size=case['maxb'])
+    if case.get('app') == 'shared':
+        if not _SHARED:
+            shared = Ombott()
+            shared.post('/')(_handler)
+            _SHARED.append(shared)
+        app = _SHARED[0]
+        app.setup(cfg)
+    else:
+        if case.get('cfg_via') == 'setup':
+            app = Ombott()
+            app.setup(cfg)
         else:
-            getattr(rq, access)
-            ct = rq.content_type
-            if ct.startswith('multipart/'):
-                seen['value'] = ['mp', F.snap(rq.POST, 0), F.snap(rq.forms, 0), F.snap(rq.files, 0)]
-                seen['buffered'] = list(rq.body.read())
-            elif ct.startswith('application/json'):
-                seen['value'] = ['jsonforms', jkind(rq.json)]
-            else:
-                seen['value'] = ['url']
-        return 'ok'
+            app = Ombott(cfg)
+        app.post('/')(_handler)
+    seen = {}
+    _CUR.update(app=app, case=case, seen=seen)
 
     signal.alarm(HANG_LIMIT)      # replaces check.py's 20 s alarm for this case: a hang is reported as {'hang': True}
     st = FragStream(case['data'], case['sched'])
     env = environ('POST', '/', **{'wsgi.input': st, 'CONTENT_TYPE': ''.join(chr(c) for c in case['ctype'])})
+    if case.get('no_ctype'):
+        del env['CONTENT_TYPE']
     if case['cl_raw'] is not None:
         env['CONTENT_LENGTH'] = cl_text(case)
     if case['te']:
@@ -445,7 +506,8 @@ def project(obs, case):
 def encode(case):
     tab = []
     ct = ''.join(chr(c) for c in case['ctype']).lower()
-    if case['access'] != 'body' and ct.split(';')[0].strip() == 'application/json' and cl_int(case) is not None:
+    if ((case['access'] != 'body' or case.get('pre', 'none') not in ('none', 'body'))
+            and ct.split(';')[0].strip() == 'application/json' and cl_int(case) is not None):
         p = payload_of(case)
         lim = min(len(p), case['mem'] + 1)
         memo = {}
@@ -456,7 +518,8 @@ def encode(case):
             except (ValueError, RecursionError):
                 k = 0
             tab.append(k)
-    acc = ACCESS.index(case['access'])
+    pre = case.get('pre', 'none')
+    acc = 8 * (5 if pre == 'none' else ACCESS.index(pre)) + ACCESS.index(case['access'])
     return ([case['mem'], 0 if case['maxb'] is None else 1, case['maxb'] or 0, 0 if case['cl_raw'] is None else 1, acc]
             + enc_str(case['cl_raw'] or []) + enc_str(case['te']) + enc_str(case['ctype']) + enc_str(case['data']) + enc_list(case['sched'], lambda k: [k])
             + enc_list(tab, lambda k: [k]))
@@ -535,6 +598,33 @@ def content_length_not_int(case, what, m):
 
 
 PREDICATES = {'content_length_not_int': content_length_not_int}
+
+
+# AUDIT_BRIEF step 2: what of the anchored API can influence the observation, and which case kind exercises it
+API_SURFACE = [
+    ('Request.forms / files / POST / json / body', 'covered by access; two of them in a row by pre (model: process_seq)'),
+    ('Request.body after a partial read', 'covered by pre="body" (read(3) first)'),
+    ('BodyMixin._body: MULTIPART_BOUNDARY_PATT on the raw CONTENT_TYPE', 'covered by CT_MPS (missing/empty/quoted/CR/LF/upper-case/trailing-; boundaries)'),
+    ('CONTENT_TYPE absent from environ', 'covered by no_ctype'),
+    ('BodyMixin.content_type / ctype (lower, split, strip)', 'covered by CT_JSON / CT_OTHER incl. leading space, NEL, parameters, upper case'),
+    ('BodyMixin.content_length: CONTENT_LENGTH absent, empty, every int() spelling, rejected spellings', 'covered by cl / cl_raw (finding C12-content-length-not-int)'),
+    ('BodyMixin.chunked: Transfer-Encoding values', 'covered by te (chunked, Chunked, "gzip, chunked", identity, absent) also together with Content-Length'),
+    ('_body_read: max_body_size, spill to a temporary file', 'covered by maxb and mem below the body size'),
+    ('_iter_body / _iter_chunked with short reads and early EOF', 'covered by sched under both framings, truncated and corrupted encodings'),
+    ('BodyMixin._get_body_string: cl > limit, cl < 0, data > limit', 'covered by json/urlencoded cases with mem around the body size and cl -1 / short / long'),
+    ('BodyMixin.json: ctype[0] test, empty body, invalid / non-UTF-8 / deeply nested JSON', 'covered by JSONS x CT_JSON'),
+    ('BodyMixin.POST: json branch (None, dict, non-dict), urlencoded branch, multipart branch (markup None, markup.error, iter_items errors)', 'covered (all lines reached)'),
+    ('MultipartMarkup.__init__/parse, BodyMarkuper.__init__ (CR in boundary)', 'covered by CT_MPS and the mutated multipart stream'),
+    ('FieldStorage.read/parse_header/iter_items incl. every raise', 'covered by the corpus witnesses of F16 and the mutated stream; per-part headers by part_headers'),
+    ('FieldStorage._patt on hostile header lines', 'covered by nasty_header (hang detection) + text pinned in C12_pins'),
+    ('BaseRequest._raise: exact class, except class, neither', 'covered for the default errors_map; a user-supplied errors_map is excluded: configuration outside the property (model: raise_in is generic, theorem uses Gen.errors_map)'),
+    ('config: Ombott(dict) / Ombott.setup(dict); max_memfile_size, max_body_size', 'covered by cfg_via and mem / maxb'),
+    ('config catchall / debug', 'excluded: they change what a 500 looks like, not whether one happens'),
+    ('one Ombott serving many requests (shared errors_map HTTPError instances)', 'covered by app="shared" (C09 owns the retention aspect)'),
+    ('Request.copy(), replacing wsgi.input', 'excluded here: covered in C07 on well-formed bodies'),
+    ('wsgi.input missing / not a stream', 'excluded: a WSGI server always supplies it'),
+    ('CONTENT_TYPE above U+00FF / lone surrogates', 'excluded: PEP 3333 makes environ strings latin-1 (guard of C12_no_server_fault)'),
+]
 
 
 def ctclass(case):
